@@ -90,6 +90,9 @@ def main(tier, seed):
     def regen():
         rc, out = sh([PY, str(VERIF / "harness" / "py2coq_valid.py"), str(REPO / "tinyflux" / "point.py"), str(COQ / "gen" / "ValidGen.v")], timeout=60)
         regen.refused = [l for l in out.splitlines() if l.startswith("REFUSED")]
+        # the static-argument checks at the head of _generate_updater, regenerated from database.py (proofs/UpdArgGenP.v)
+        rc2, out2 = sh([PY, str(VERIF / "harness" / "py2coq_updarg.py"), str(REPO / "tinyflux" / "database.py"), str(COQ / "gen" / "UpdArgGen.v")], timeout=60)
+        regen.refused += [l for l in out2.splitlines() if l.startswith("REFUSED")]
     regen.refused = []
     b = ck.build_proofs("Prop_C14", pre=regen, extra_targets=["Valid.vo"])
     U = universe()
@@ -535,7 +538,7 @@ def main(tier, seed):
                                                "Print Assumptions: " + json.dumps(b["assumptions"])],
         "theorems": b["theorems"], "forbidden_tokens_found": b["forbidden"],
         "translator": {"source": "tinyflux/point.py: validate_tags, validate_fields -> coq/gen/ValidGen.v (regenerated on this run)",
-                       "refused": regen.refused, "equivalence_theorems": ["gen_validate_tags_eq", "gen_validate_fields_eq"]},
+                       "refused": regen.refused, "equivalence_theorems": ["gen_validate_tags_eq", "gen_validate_fields_eq", "gen_rejected_time_eq / _measurement_eq / _tags_eq / _fields_eq / _unset_eq, gen_nothing_given_eq (tinyflux/database.py: the argument checks of _generate_updater -> coq/gen/UpdArgGen.v)"]},
         "evaluations": len(rows) + n_checks, "distinct_nontrivial": len({r[2] for r in rows if not r[1]}),
         "rule": f"value universe of {len(U)} values (every kind of atom, single-entry dicts over all key x value kinds, two-entry dicts with a good entry next to a bad one) x "
                 "slots {time, measurement, tags, fields} x entry points {validate_*, Point(...), attribute assignment, db/measurement update and update_all with a "
